@@ -526,7 +526,12 @@ func runC20(c *Check, a *Analysis) {
 		eachInstr(fn, func(in ssa.Instruction) {
 			cc, ok := in.(*ssa.Call)
 			if ok && calleeName(cc) == "builtin close" && isLoadOf(p.canon(cc.Call.Args[0]), spec.st, "done") {
-				found = true
+				// not confined to the edge on which the channel is nil, nor to the losing compare-and-swap
+				onlyNil, _ := p.guardedBy(in, matchFieldNilAny(p, "done"))
+				lost, _ := p.guardedBy(in, negate(matchCAS(p)))
+				if !onlyNil && !lost {
+					found = true
+				}
 			}
 		})
 		c.Ob("R-CLOSE-SIGNALS", spec.fn+"#close(done)", fn.Pos(), found, ifs(!found, spec.fn+" never closes the done channel: the periodic goroutine (and Fallback timers) outlive Close"))
